@@ -280,6 +280,12 @@ pub fn bank_program(seed: u64, p: u64, cart_type: u8, rom_code: u8) -> (Vec<u8>,
     a.ld_a(*b);
     a.ldh_to(0x80 + i as u8);
   }
+  // a routine in high RAM whose immediate operand is rewritten between calls:
+  // LD A,n; ADD A,C; LD C,A; RET at 0xFFA0
+  for (i, b) in [0x3eu8, 0x11, 0x81, 0x4f, 0xc9].iter().enumerate() {
+    a.ld_a(*b);
+    a.ldh_to(0xa0 + i as u8);
+  }
   a.ld_a(0x40);
   a.ld_a_to(0x8000);
   a.ld_a(0x30);
@@ -294,7 +300,14 @@ pub fn bank_program(seed: u64, p: u64, cart_type: u8, rom_code: u8) -> (Vec<u8>,
     if a.here() > 0x2d00 {
       break;
     }
-    match rng.below(19) {
+    match rng.below(21) {
+      19 | 20 => {
+        // code in high RAM, changed after it has run: what runs is what high RAM holds now
+        a.ld_a(rng.u8());
+        a.ldh_to(0xa1);
+        a.call(0xffa0);
+        desc.push_str(" hramcode");
+      }
       17 | 18 => {
         // leave the window through its last instruction, under an odd-numbered bank (an odd
         // low register value never maps bank 0, whose last bytes are the fall-through tail)
@@ -706,6 +719,45 @@ pub fn run(ctx: &mut Ctx) {
     ctx.distinct_key(hash_words(&[p, seed, hash_bytes(kind.as_bytes())]));
     if ctx.want_sample() && p % 29 == 3 {
       ctx.sample(&format!("{} role {}: program #{} [{}]: {} steps, digest of registers/IME/run state, all RAMs, I/O registers, IF/IE, timer phase, LCD position, DMA progress, joypad latch, MBC registers, serial output so far (frame buffers every 64 steps) after every step", prop, role, p, desc.trim(), steps));
+    }
+  }
+  // ---- a block in the switchable bank that maps another bank over itself, where the two
+  // banks hold DIFFERENT code behind the store (the program generators only ever use routines
+  // that are byte for byte the same in every bank for this): what runs behind the store must
+  // be the bank mapped then. Run in every build: the interpreter fetches instruction by
+  // instruction and gets it right; the recompiler finishes the block it translated from the
+  // old bank (a recorded finding, see known_findings.json)
+  if role != "write" && kind == "c03" && ctx.mine(nprog + 3) {
+    ctx.intent(&[nprog + 3, 0]);
+    for (ci, &(ct, rc)) in [(0x01u8, 0x01u8), (0x11, 0x02), (0x13, 0x05)].iter().enumerate() {
+      let mut image = support::make_image(ct, rc, 0x00);
+      for i in 0..image.len() {
+        image[i] = [0x76u8, 0x18, 0xfd, 0x00][i & 3];
+      }
+      // bank 1: LD (HL),A ; INC B ; HALT    bank 2: LD (HL),A ; INC C ; HALT
+      image[0x4000..0x4003].copy_from_slice(&[0x77, 0x04, 0x76]);
+      image[0x8000..0x8003].copy_from_slice(&[0x77, 0x0c, 0x76]);
+      support::stamp_header(&mut image, ct, rc, 0x00);
+      let mut core = support::core_from_image(&image);
+      core.registers.ip = 0x4000;
+      core.registers.sp = 0xdff0;
+      core.registers.af = 0x0200;
+      core.registers.bc = 0x0000;
+      core.registers.hl = 0x2100;
+      core.run_state = RunState::Run;
+      step(&mut core);
+      evaluations += 1;
+      let bc = core.registers.bc;
+      if bc != 0x0001 {
+        ctx.violation(
+          "C03:block-remaps-its-own-bank:rest-of-the-block-from-the-old-bank",
+          &format!(
+            "cartridge type {:02X}: bank 1 holds LD (HL),A; INC B; HALT at 0x4000 and bank 2 LD (HL),A; INC C; HALT; entered under bank 1 with A=2, HL=0x2100: BC={:04X} afterwards (the bytes mapped behind the store are bank 2's: BC=0001)",
+            ct, bc
+          ),
+        );
+      }
+      ctx.distinct_key(hash_words(&[nprog + 3, ci as u64]));
     }
   }
   // ---- the largest block there can be (a whole 16 KiB bank of the instruction with the
